@@ -125,6 +125,10 @@ func hessianConcurrent(dst *mat.SymDense, nWorkers, evals int, f func(x []float6
 
 	var originWG sync.WaitGroup
 	hasOrigin := usesOrigin(stencil)
+	if originKnown {
+		// The caller provided the value at the origin.
+		hasOrigin = false
+	}
 	if hasOrigin {
 		originWG.Add(1)
 		// Launch worker to compute the origin.
